@@ -19,6 +19,18 @@ def algOfName (n : String) : Option HashAlg := (idOfName n).bind hashOfId
 def handle (line : String) : String :=
   let o := parseOp line
   match o.cmd with
+  | "ids" =>   -- HashIdToHash / HashIdToString
+    match o.nat? "id" with
+    | some id =>
+      if id ≥ 256 then "bad-op" else
+      let h := match hashIdToHash (UInt8.ofNat id) with | some v => toString v | none => "-"
+      let n := match hashIdToString (UInt8.ofNat id) with | some v => v | none => "-"
+      s!"hash={h} name={n}"
+    | none => "bad-op"
+  | "hid" =>   -- HashToHashId
+    match o.nat? "h" with
+    | some h => match hashToHashId h with | some id => s!"id={id.toNat}" | none => "id=-"
+    | none => "bad-op"
   | "dc" =>
     match o.nat? "c" with
     | some c => if c < 256 then toString (decodeCount (UInt8.ofNat c)) else "bad-op"
